@@ -381,7 +381,35 @@ func registerSort() {
 }
 
 func registerTime() {
+	// the clock: a fixed instant (the zero time.Time) unless a harness installs its own stub
 	externals["time.Now"] = func(fr *frame, args []value) value {
-		panic(engineFault{"time.Now (no stub installed by the harness)"})
+		if fr.i.initDepth == 0 {
+			fr.i.ex.noteAssumption("stub: time.Now returns the zero time.Time")
+		}
+		return structure{uint64(0), int64(0), (*value)(nil)}
 	}
+	externals["time.runtimeNano"] = func(fr *frame, args []value) value { return int64(0) }
+	for _, n := range []string{"github.com/mattn/go-isatty.IsTerminal", "github.com/mattn/go-isatty.IsCygwinTerminal",
+		"golang.org/x/term.IsTerminal"} {
+		externals[n] = func(fr *frame, args []value) value { return false }
+	}
+	// Miller's own assertion helper: reaching it with a true condition is reported like a panic
+	ice := func(fr *frame, args []value) value {
+		switch c := args[0].(type) {
+		case bool:
+			if c {
+				caller := fr.caller
+				fr.i.ex.runtimePanic(caller, caller.callPos(), "internal coding error (lib.InternalCodingErrorIf reached with a true condition)")
+			}
+		case *symv:
+			caller := fr.caller
+			fr.i.ex.implicitAssert(caller, caller.callPos(), "internal coding error (lib.InternalCodingErrorIf)", not1(c.term))
+		}
+		return nil
+	}
+	externals["github.com/johnkerl/miller/v6/pkg/lib.InternalCodingErrorIf"] = ice
+	externals["github.com/johnkerl/miller/v6/pkg/lib.InternalCodingErrorWithMessageIf"] = ice
+	externals["runtime.Caller"] = func(fr *frame, args []value) value { return tuple{uintptr(0), "", 0, false} }
+	externals["runtime.Callers"] = func(fr *frame, args []value) value { return 0 }
+	externals["runtime/debug.Stack"] = func(fr *frame, args []value) value { return []value(nil) }
 }
